@@ -1,6 +1,7 @@
 import GsModel.Diff.SelfTop
 import GsModel.Diff.Total
 import GsModel.Diff.Guard
+import GsModel.Diff.Terminates
 /-
   C12 — diff: a spec never differs from itself, and diff never crashes.
 
@@ -22,7 +23,11 @@ import GsModel.Diff.Guard
                                 arrives at a visited location key returns at once with the state untouched, following a `$ref`
                                 marks the key, and the key depends on the first two nodes of the location only (so every
                                 location below depth 2 of one subtree shares its key: at most one `$ref` per key is followed).
-                                NOT proved: termination (“never loops”) — the model recurses on fuel; the visited-key
+                                `terminates_acyclic` / `returns_report`: termination for documents without recursive definitions —
+                                if every schema, `$ref`s followed, is at most d levels deep (`Spec.fitsB d`, computed by the
+                                driver on every generated document), the analyser does not run out of fuel d+1: its recursion is
+                                bounded by the nesting of the documents, and with validity it RETURNS A REPORT.
+                                NOT proved: termination (“never loops”) for RECURSIVE definitions — there the visited-key
                                 argument that bounds the real recursion is exercised by the correspondence run only.
   * `*_repaired`              — the totality half was FALSE of the pinned code: five concrete valid documents made the
                                 analyser panic (findings #1, #29, #39, #40, #41, all repaired by `fix:` commits in
@@ -193,6 +198,23 @@ theorem sample2_valid : ∀ k, sampleSpec2.validB k = true := by
       schemaOk, Schema.children, refOk, lookup, primitiveTypeString]
 
 example : (analyse {} 50 sampleSpec sampleSpec2).isOk = true ∧ (analyse {} 50 sampleSpec2 sampleSpec).isOk = true := by decide
+
+/-! ### termination without recursive definitions -/
+
+/-- the analyser does not run out of fuel `d+1` on documents whose schemas are at most `d` levels deep ($refs followed) -/
+theorem terminates_acyclic (fl : Flags) (n : Nat) (a b : Spec) (fa : a.fitsB (n+1) = true) (fb : b.fitsB (n+1) = true) :
+    NoFuel (analyse fl (n+2) a b) :=
+  analyse_term fl n a b (a.fits_of_fitsB _ fa) (b.fits_of_fitsB _ fb)
+
+/-- valid and not recursive: comparing the two documents returns a report -/
+theorem returns_report (fl : Flags) (n : Nat) (a b : Spec) (ha : ∀ k, a.validB k = true) (hb : ∀ k, b.validB k = true)
+    (fa : a.fitsB (n+1) = true) (fb : b.fitsB (n+1) = true) : (analyse fl (n+2) a b).isOk = true :=
+  analyse_returns fl n a b (a.valid_of_validB ha) (b.valid_of_validB hb) fa fb
+
+/-- non-vacuity: sampleSpec2 is valid and 3 levels deep; sampleSpec (A.next → A) is recursive and fits no depth -/
+example : sampleSpec2.fitsB 3 = true ∧ sampleSpec.fitsB 12 = false := by decide
+example : (analyse {} 4 sampleSpec2 sampleSpec2).isOk = true :=
+  returns_report {} 2 sampleSpec2 sampleSpec2 sample2_valid sample2_valid (by decide) (by decide)
 
 /-! ### the recursion guard -/
 
